@@ -62,7 +62,7 @@ Section Match.
     eval O (enr [y; lo; hi] xp yp dv) (rqs_ld_inv_t 3 (Var 1) (Var 2) (Var 0)) = rqs_ld_inv O xp yp dv lo hi y.
   Proof.
     unfold rqs_ld_inv_t, rqs_ld_inv_gt, rqs_ld_inv_of_gt, rqs_ld_inv. cbn [eval].
-    change (rqs_inv_gt bin_t) with rqs_inv_t. change (rqs_deriv_gt bin_t) with rqs_deriv_t.
+    change (rqs_inv_gt bin_t rob_lo) with rqs_inv_t. change (rqs_deriv_gt bin_t rob_lo) with rqs_deriv_t.
     rewrite ev_rqs_inv, push_enr. cbn [app]. now rewrite ev_rqs_deriv_slot.
   Qed.
   Lemma ev_rqs_fwd_old xp yp dv lo hi x :
